@@ -233,7 +233,9 @@ def immOp (working : Nat) (c : OT) (args : List String) : String :=
   | ["get", k] => match dec k with | some (some k) => rd (.get k) | _ => "bad"
   | ["has", k] => match dec k with | some (some k) => rd (.has k) | _ => "bad"
   | ["gwi", k] => match dec k with | some (some k) => rd (.getWithIndex k) | _ => "bad"
-  | ["gbi", i] => rd (.getByIndex i.toNat!)
+  | ["gbi", i] =>
+    -- a negative rank names nothing (Go: the descent ends at the leftmost leaf with index != 0)
+    if i.startsWith "-" then "- -" else rd (.getByIndex i.toNat!)
   | ["size"] => rd .size
   | ["height"] => toString (match c with | none => 0 | some t => t.height)
   | ["hash"] => enc (some (hashO working c))
@@ -584,6 +586,7 @@ partial def exec (x : XState) (args : List String) : XState × String :=
        | "gwi", some (some k) => (x, out (t.getReads k))
        | "has", some (some k) => (x, out (t.hasReads k))
        | "gbi", _ => (x, out (t.getByIndexReads arg.toNat!))
+       | "proof", some (some k) => (x, out (t.proofReads k))
        | _, _ => (x, "?"))
     | _ => (x, "?")
   | "reads" :: _ => (x, "?")
